@@ -22,6 +22,7 @@ import (
 	"sort"
 	"strconv"
 	"strings"
+	"sync"
 	"time"
 	"unsafe"
 
@@ -158,10 +159,13 @@ var (
 	hangs        int              // number of timeouts seen so far
 	pathDisabled [numPaths]bool   // paths switched off after a reported hang
 	hungPaths    = map[int]bool{} // paths that timed out in the case being checked
-	curPath      = -1
 )
 
-func guard(f func() ([]parquet.Row, error)) pathResult {
+func guard(f func() ([]parquet.Row, error)) pathResult { return guardP(-1, f) }
+
+var hangMu sync.Mutex
+
+func guardP(p int, f func() ([]parquet.Row, error)) pathResult {
 	ch := make(chan pathResult, 1)
 	go func() {
 		var res pathResult
@@ -182,10 +186,12 @@ func guard(f func() ([]parquet.Row, error)) pathResult {
 	case res := <-ch:
 		return res
 	case <-time.After(pathTimeout):
+		hangMu.Lock()
 		hangs++
-		if curPath >= 0 {
-			hungPaths[curPath] = true
+		if p >= 0 {
+			hungPaths[p] = true
 		}
+		hangMu.Unlock()
 		return pathResult{err: fmt.Sprintf("did not return within %v (endless loop)", pathTimeout)}
 	}
 }
@@ -210,10 +216,7 @@ func guardPath(p int, f func() ([]parquet.Row, error)) pathResult {
 	if pathDisabled[p] {
 		return pathResult{skipped: true}
 	}
-	curPath = p
-	res := guard(f)
-	curPath = -1
-	return res
+	return guardP(p, f)
 }
 
 func readAll(rows parquet.Rows) ([]parquet.Row, error) {
@@ -289,8 +292,33 @@ func execPaths[T any](ct *cat, rows []T, split []int) (res [numPaths]pathResult)
 		wopts = []parquet.WriterOption{schema}
 		ropts = []parquet.RowGroupOption{schema}
 	}
+	// the paths run concurrently (they share nothing but the read-only rows);
+	// 7 and 8 start once 1 has produced the deconstructed rows
+	var wg sync.WaitGroup
+	var late []func()
+	run := func(p int, f func() ([]parquet.Row, error)) {
+		start := func() {
+			wg.Add(1)
+			go func() {
+				defer wg.Done()
+				res[p] = guardPath(p, f)
+			}()
+		}
+		if p == 6 || p == 7 {
+			late = append(late, start)
+		} else {
+			start()
+		}
+	}
+	defer func() {
+		wg.Wait()
+		for _, start := range late {
+			start()
+		}
+		wg.Wait()
+	}()
 	// 1: Schema.Deconstruct
-	res[0] = guardPath(0, func() ([]parquet.Row, error) {
+	run(0, func() ([]parquet.Row, error) {
 		out := make([]parquet.Row, n)
 		for i := range rows {
 			if i%2 == 0 {
@@ -302,7 +330,7 @@ func execPaths[T any](ct *cat, rows []T, split []int) (res [numPaths]pathResult)
 		return out, nil
 	})
 	// 2: typed GenericWriter
-	res[1] = guardPath(1, func() ([]parquet.Row, error) {
+	run(1, func() ([]parquet.Row, error) {
 		var buf bytes.Buffer
 		w := parquet.NewGenericWriter[T](&buf, wopts...)
 		for _, b := range bs {
@@ -316,7 +344,7 @@ func execPaths[T any](ct *cat, rows []T, split []int) (res [numPaths]pathResult)
 		return readFile(buf.Bytes())
 	})
 	// 3: deprecated Writer.Write(any)
-	res[2] = guardPath(2, func() ([]parquet.Row, error) {
+	run(2, func() ([]parquet.Row, error) {
 		var buf bytes.Buffer
 		w := parquet.NewWriter(&buf, schema)
 		for i := range rows {
@@ -336,7 +364,7 @@ func execPaths[T any](ct *cat, rows []T, split []int) (res [numPaths]pathResult)
 		return readFile(buf.Bytes())
 	})
 	// 4: typed GenericBuffer
-	res[3] = guardPath(3, func() ([]parquet.Row, error) {
+	run(3, func() ([]parquet.Row, error) {
 		buf := parquet.NewGenericBuffer[T](ropts...)
 		for _, b := range bs {
 			if k, err := buf.Write(rows[b[0]:b[1]]); err != nil || k != b[1]-b[0] {
@@ -346,7 +374,7 @@ func execPaths[T any](ct *cat, rows []T, split []int) (res [numPaths]pathResult)
 		return readAll(buf.Rows())
 	})
 	// 5: Buffer.Write(any)
-	res[4] = guardPath(4, func() ([]parquet.Row, error) {
+	run(4, func() ([]parquet.Row, error) {
 		buf := parquet.NewBuffer(schema)
 		for i := range rows {
 			var err error
@@ -362,7 +390,7 @@ func execPaths[T any](ct *cat, rows []T, split []int) (res [numPaths]pathResult)
 		return readAll(buf.Rows())
 	})
 	// 6: RowBuffer
-	res[5] = guardPath(5, func() ([]parquet.Row, error) {
+	run(5, func() ([]parquet.Row, error) {
 		buf := parquet.NewRowBuffer[T](ropts...)
 		for _, b := range bs {
 			if k, err := buf.Write(rows[b[0]:b[1]]); err != nil || k != b[1]-b[0] {
@@ -371,9 +399,8 @@ func execPaths[T any](ct *cat, rows []T, split []int) (res [numPaths]pathResult)
 		}
 		return readAll(buf.Rows())
 	})
-	base := res[0].rows
 	// 7: WriteRows of pre-shredded rows
-	res[6] = guardPath(6, func() ([]parquet.Row, error) {
+	run(6, func() ([]parquet.Row, error) {
 		if res[0].err != "" {
 			return nil, fmt.Errorf("no deconstructed rows")
 		}
@@ -381,7 +408,7 @@ func execPaths[T any](ct *cat, rows []T, split []int) (res [numPaths]pathResult)
 		w := parquet.NewGenericWriter[T](&buf, wopts...)
 		for _, b := range bs {
 			in := make([]parquet.Row, 0, b[1]-b[0])
-			for _, r := range base[b[0]:b[1]] {
+			for _, r := range res[0].rows[b[0]:b[1]] {
 				in = append(in, r.Clone())
 			}
 			if k, err := w.WriteRows(in); err != nil || k != len(in) {
@@ -394,7 +421,7 @@ func execPaths[T any](ct *cat, rows []T, split []int) (res [numPaths]pathResult)
 		return readFile(buf.Bytes())
 	})
 	// 8: per-column writers
-	res[7] = guardPath(7, func() ([]parquet.Row, error) {
+	run(7, func() ([]parquet.Row, error) {
 		if res[0].err != "" {
 			return nil, fmt.Errorf("no deconstructed rows")
 		}
@@ -402,7 +429,7 @@ func execPaths[T any](ct *cat, rows []T, split []int) (res [numPaths]pathResult)
 		w := parquet.NewGenericWriter[T](&buf, wopts...)
 		ncols := len(schema.Columns())
 		cols := make([][]parquet.Value, ncols)
-		for _, r := range base {
+		for _, r := range res[0].rows {
 			for _, v := range r {
 				cols[v.Column()] = append(cols[v.Column()], v.Clone())
 			}
@@ -427,7 +454,7 @@ func execPaths[T any](ct *cat, rows []T, split []int) (res [numPaths]pathResult)
 		return readFile(buf.Bytes())
 	})
 	// 9: GenericWriter[any] with the schema (writeValueFuncOf path)
-	res[8] = guardPath(8, func() ([]parquet.Row, error) {
+	run(8, func() ([]parquet.Row, error) {
 		var buf bytes.Buffer
 		w := parquet.NewGenericWriter[any](&buf, schema)
 		for _, b := range bs {
@@ -451,7 +478,7 @@ func execPaths[T any](ct *cat, rows []T, split []int) (res [numPaths]pathResult)
 	// 10: typed GenericBuffer, then the rows are reversed through the buffer's
 	// Swap (sort.Interface) before they are read: the row -> value bookkeeping
 	// of the column buffers must describe the rows that were written
-	res[9] = guardPath(9, func() ([]parquet.Row, error) {
+	run(9, func() ([]parquet.Row, error) {
 		buf := parquet.NewGenericBuffer[T](ropts...)
 		for _, b := range bs {
 			if k, err := buf.Write(rows[b[0]:b[1]]); err != nil || k != b[1]-b[0] {
@@ -467,7 +494,7 @@ func execPaths[T any](ct *cat, rows []T, split []int) (res [numPaths]pathResult)
 		return readAll(buf.Rows())
 	})
 	// 11: Buffer.Write(any), reversed the same way
-	res[10] = guardPath(10, func() ([]parquet.Row, error) {
+	run(10, func() ([]parquet.Row, error) {
 		buf := parquet.NewBuffer(schema)
 		for i := range rows {
 			if err := buf.Write(&rows[i]); err != nil {
@@ -484,7 +511,7 @@ func execPaths[T any](ct *cat, rows []T, split []int) (res [numPaths]pathResult)
 		ptrs[i] = &rows[i]
 	}
 	// 12: GenericWriter[*T]: the rows are pointers
-	res[11] = guardPath(11, func() ([]parquet.Row, error) {
+	run(11, func() ([]parquet.Row, error) {
 		var buf bytes.Buffer
 		w := parquet.NewGenericWriter[*T](&buf, wopts...)
 		for _, b := range bs {
@@ -498,7 +525,7 @@ func execPaths[T any](ct *cat, rows []T, split []int) (res [numPaths]pathResult)
 		return readFile(buf.Bytes())
 	})
 	// 13: GenericBuffer[*T]
-	res[12] = guardPath(12, func() ([]parquet.Row, error) {
+	run(12, func() ([]parquet.Row, error) {
 		buf := parquet.NewGenericBuffer[*T](ropts...)
 		for _, b := range bs {
 			if k, err := buf.Write(ptrs[b[0]:b[1]]); err != nil || k != b[1]-b[0] {
@@ -508,7 +535,7 @@ func execPaths[T any](ct *cat, rows []T, split []int) (res [numPaths]pathResult)
 		return readAll(buf.Rows())
 	})
 	// 14: GenericBuffer[any] with the schema (rows alternately by value and by pointer)
-	res[13] = guardPath(13, func() ([]parquet.Row, error) {
+	run(13, func() ([]parquet.Row, error) {
 		buf := parquet.NewGenericBuffer[any](schema)
 		for _, b := range bs {
 			in := make([]any, 0, b[1]-b[0])
@@ -1131,9 +1158,16 @@ func mValueD(n parquet.Node, v reflect.Value, dyn bool) *mv {
 			g.kids = append(g.kids, mFieldD(f, reflect.Value{}, dyn))
 		}
 	case v.Kind() == reflect.Map:
-		// a Go map with string keys written to a group: one entry per field
+		// a Go map with string keys written to a group: one entry per field.
+		// The entries count as the values they hold, whatever the element
+		// type of the map: a missing key, nil and a zero value are null at
+		// an optional node (TestGenericWriterMapStringAnyOptionalZeroValues).
 		for _, f := range fields {
-			g.kids = append(g.kids, mFieldD(f, v.MapIndex(reflect.ValueOf(f.Name()).Convert(v.Type().Key())), false))
+			e := v.MapIndex(reflect.ValueOf(f.Name()).Convert(v.Type().Key()))
+			if e.IsValid() && e.Kind() == reflect.Interface {
+				e = e.Elem()
+			}
+			g.kids = append(g.kids, mFieldD(f, e, false))
 		}
 	default:
 		refs := structFieldRefs(v.Type(), nil)
@@ -2020,6 +2054,23 @@ func fieldNode(n parquet.Node, name string) parquet.Node {
 	return nil
 }
 
+// needsValue: a present value of group n must hold something (a required
+// leaf somewhere below required groups)
+func needsValue(n parquet.Node) bool {
+	if n.Leaf() {
+		return true
+	}
+	if isVariantNode(n) {
+		return false
+	}
+	for _, f := range n.Fields() {
+		if f.Required() && needsValue(f) {
+			return true
+		}
+	}
+	return false
+}
+
 func columnName(f reflect.StructField) (string, bool) {
 	name := f.Name
 	if tag, ok := f.Tag.Lookup("parquet"); ok {
@@ -2163,8 +2214,11 @@ func (g *gen) fillN(n parquet.Node, v reflect.Value, path string) {
 		g.cur = old
 		v.Set(s)
 	case reflect.Map:
-		if g.nullish(path) {
-			if g.rng.Intn(2) == 0 {
+		toGroup := n != nil && !n.Leaf() && !isMapNode(n)
+		if g.nullish(path) && !(toGroup && needsValue(n) && !n.Optional()) {
+			// (a map written to a group with required leaves must hold them:
+			// nil only where the group is optional, never empty)
+			if g.rng.Intn(2) == 0 && !(toGroup && needsValue(n)) {
 				v.Set(reflect.MakeMap(v.Type()))
 			}
 			return
@@ -2549,6 +2603,9 @@ func runC03(c *core.Ctx) {
 	}
 
 	corpus(c, byName)
+	if os.Getenv("C03_ONLY") == "" {
+		runKnown(c)
+	}
 
 	// which path GenericWriter[T] takes, per type
 	{
@@ -2575,6 +2632,7 @@ func runC03(c *core.Ctx) {
 		if tooManyHangs(c) {
 			break
 		}
+		tType := time.Now()
 		if c.Quick() {
 			perType := c.N(12, 0)
 			if ct.perType > 0 {
@@ -2609,6 +2667,9 @@ func runC03(c *core.Ctx) {
 				runCase(c, ct, genBatch(rng, ct, n+rng.Intn(100)), []int{n - 1}, "big/"+ct.name, false)
 			}
 		}
+		if os.Getenv("C03_TIMES") != "" { // debugging aid
+			fmt.Fprintf(os.Stderr, "TIME %-28s %6.2fs\n", ct.name, time.Since(tType).Seconds())
+		}
 	}
 	if !c.Quick() {
 		c.Note("every batch size 1..200 for every catalogue type (%d types), and single Write calls of 513, 600, 1025, 1100 and 1300 rows", len(cats))
@@ -2632,6 +2693,13 @@ func min(a, b int) int {
 }
 
 func replayC03(c *core.Ctx, raw json.RawMessage) {
+	var kn struct {
+		Known string `json:"known"`
+	}
+	if err := json.Unmarshal(raw, &kn); err == nil && kn.Known != "" {
+		runKnown(c)
+		return
+	}
 	var r caseReplay
 	if err := json.Unmarshal(raw, &r); err != nil || r.Type == "" {
 		var s sweepReplay
